@@ -201,8 +201,20 @@ func warmReport(c *core.Ctx, m *lakeh.AbsModel) func(h lakeh.History, upto int, 
 // ONE handle; after every acknowledged or refused operation a fresh process must
 // be able to replay every branch from storage and see the model's contents.
 func warmHistories(c *core.Ctx) error {
+	if err := warmModel(c, lakeh.WarmModel(c.Quick())); err != nil {
+		return err
+	}
+	// both sides of a fork remove the same object, then merge: an acknowledged merge commit must replay
+	m := lakeh.WarmModel(true)
+	m.Name = "lake_warm_merge"
+	m.MaxOps = 5
+	m.OpKinds = []string{"load", "branch", "delete", "deletewhere", "compact", "merge"}
+	m.Shape = [][]string{{"load"}, {"branch"}, {"delete", "deletewhere", "compact"}, {"delete", "deletewhere", "compact", "load"}, {"merge"}}
+	return warmModel(c, m)
+}
+
+func warmModel(c *core.Ctx, m *lakeh.AbsModel) error {
 	ctx := context.Background()
-	m := lakeh.WarmModel(c.Quick())
 	hs, res := lakeh.GenHistories(c, m, "", 8)
 	if res == nil {
 		return nil
